@@ -135,8 +135,10 @@ def h_two_steps(S, B):
             S.check("step2-contained", False)
     rig.run_pending_threads()
     S.cover("two-steps")
-    S.known("C12-response-annotations-survive-a-raising-call", k1 == "call-tagged_raise")
-    S.known("C12-oneway-thread-shares-the-response-annotation-dict", And(k1 == "oneway-tagged_oneway", run_oneway_thread_early))
+    S.known("C12-response-annotations-survive-a-raising-call", k1 == "call-tagged_raise",
+            checks=["B-reply-carries-no-annotation-of-A", "invariant-restored-after-request"])
+    S.known("C12-oneway-thread-shares-the-response-annotation-dict", And(k1 == "oneway-tagged_oneway", run_oneway_thread_early),
+            checks=["B-reply-carries-no-annotation-of-A", "invariant-restored-after-request"])
     # ---- oracle: replies to A
     repliesA = rig.parse_sent(sockA)
     for r in repliesA:
